@@ -355,13 +355,13 @@ theorem viaVisited_groots (k : Cl → Nat → Option (Cl × Nat))
       rw [this]; rfl
 
 theorem cloneVal_groots {dst thr : HeapId} {rgen : Option Nat} {fixed : Bool} :
-    ∀ (f : Nat) (c : Cl) (v : Nat) (c' : Cl) (r : Nat),
-      cloneVal dst thr rgen fixed f c v = some (c', r) → c'.s.groots = c.s.groots := by
+    ∀ (f : Nat) (ns : Bool) (c : Cl) (v : Nat) (c' : Cl) (r : Nat),
+      cloneVal dst thr rgen fixed f ns c v = some (c', r) → c'.s.groots = c.s.groots := by
   intro f
   induction f with
-  | zero => intro c v c' r h; simp [cloneVal] at h
+  | zero => intro ns c v c' r h; simp [cloneVal] at h
   | succ f ih =>
-    intro c v c' r h
+    intro ns c v c' r h
     simp only [cloneVal] at h
     split at h
     · simp only [Option.some.injEq, Prod.mk.injEq] at h; rw [← h.1]
@@ -373,11 +373,13 @@ theorem cloneVal_groots {dst thr : HeapId} {rgen : Option Nat} {fixed : Bool} :
         | udata => simp [hk] at h
         | thread => simp [hk] at h
         | code => simp only [hk, Option.some.injEq, Prod.mk.injEq] at h; rw [← h.1]
-        | plain => simp only [hk] at h; exact viaVisited_groots _ ih h
+        | plain => simp only [hk] at h; exact viaVisited_groots _ (ih false) h
+        | aarr => simp only [hk] at h; exact viaVisited_groots _ (ih (!fixed)) h
+        | uarr => simp only [hk] at h; exact viaVisited_groots _ (ih (!fixed)) h
         | shallow =>
           simp only [hk] at h
           cases fixed with
-          | true => simp only [if_true] at h; exact viaVisited_groots _ ih h
+          | true => simp only [if_true] at h; exact viaVisited_groots _ (ih false) h
           | false =>
             simp only [Bool.false_eq_true, if_false] at h
             unfold shallowCopy at h
@@ -387,30 +389,30 @@ theorem cloneVal_groots {dst thr : HeapId} {rgen : Option Nat} {fixed : Bool} :
         | cell =>
           simp only [hk] at h
           cases fixed with
-          | true => simp only [if_true] at h; exact viaVisited_groots _ ih h
+          | true => simp only [if_true] at h; exact viaVisited_groots _ (ih false) h
           | false =>
             simp only [Bool.false_eq_true, if_false] at h
             unfold cellCopy at h
-            cases hce : cloneEdges (cloneVal dst thr rgen false f) c o.edges with
+            cases hce : cloneEdges (cloneVal dst thr rgen false f false) c o.edges with
             | none => simp [hce] at h
             | some p2 =>
               obtain ⟨c2, es⟩ := p2
               simp only [hce, Option.some.injEq, Prod.mk.injEq] at h
               rw [← h.1]
-              have := cloneEdges_groots _ ih _ _ _ _ hce
+              have := cloneEdges_groots _ (ih false) _ _ _ _ hce
               simp only [State.push]
               exact this
 
 theorem deepClone_groots {s s' : State} {dst thr : HeapId} {rgen : Option Nat} {fixed : Bool}
     {v r : Nat} (h : deepClone s dst thr rgen fixed v = some (s', r)) : s'.groots = s.groots := by
   unfold deepClone at h
-  cases hc : cloneVal dst thr rgen fixed (cloneFuel s) ⟨s, []⟩ v with
+  cases hc : cloneVal dst thr rgen fixed (cloneFuel s) false ⟨s, []⟩ v with
   | none => simp [hc] at h
   | some p =>
     obtain ⟨c, r'⟩ := p
     simp only [hc, Option.some.injEq, Prod.mk.injEq] at h
     rw [← h.1]
-    exact cloneVal_groots _ _ _ _ _ hc
+    exact cloneVal_groots _ _ _ _ _ _ hc
 
 /-- The cloner (into a thread's own heap) keeps the machine invariant. -/
 theorem good_deepClone {fixed : Bool} {s s' : State} {dst : HeapId} {rgen : Option Nat}
@@ -437,10 +439,7 @@ theorem good_deepClone {fixed : Bool} {s s' : State} {dst : HeapId} {rgen : Opti
       refine ⟨fun _ => ?_, fun hk => absurd hk hkind.ne_code, fun hk => ?_,
         fun hk => absurd hk hkind.ne_thread⟩
       · rcases hhome with h1 | ⟨h1, _⟩ <;> rw [h1, hown]
-      · rcases hkind with h1 | h1 | ⟨_, h1⟩
-        · rw [h1] at hk; cases hk
-        · rw [h1] at hk; cases hk
-        · exact h1
+      · exact hkind.shallow_fixed hk
   · intro p hp
     rw [deepClone_groots h] at hp
     obtain ⟨hlt, hown⟩ := g.groots p hp
@@ -459,12 +458,12 @@ theorem cloneCtx_of_shortcut {fixed : Bool} {s : State} {src dst : HeapId} {v0 :
   · intro v hv
     cases hv with
     | root => exact hlive
-    | step _ ho _ _ he => exact g.nd _ _ ho _ he
-  · intro v o hv ho hs hk e he
-    exact CopyReach.step hv ho hs hk he
+    | step _ ho _ he => exact g.nd _ _ ho _ he
+  · intro v o hv ho hk e he
+    exact CopyReach.step hv ho hk he
   · intro v o hv ho hs
     exact shortcut_sound' g.inv g.homed h0 hcs hv ho hs
-  · intro v o _ ho _ hk
+  · intro v o _ ho hk
     exact (g.objs v o ho).2.2.1 hk
   · intro v o _ ho hk
     rw [(g.objs v o ho).2.1 hk]; exact List.nil_prefix
